@@ -157,6 +157,10 @@ def o_solver_reuse(rng, n=6):
     return O.run_oracle("solver_reuse", O.gen_solver_reuse_inputs(rng, n))
 
 
+def o_caller_ops(rng, n=4):
+    return O.run_oracle("caller_ops", O.gen_caller_ops_inputs(rng, n))
+
+
 def o_history(rng, n=4):
     return O.run_oracle("history", O.gen_history_inputs(rng, n))
 
@@ -384,7 +388,7 @@ PROPS = {
         "trusted": [KERNELS["eigh"], KERNELS["numpy"], KERNELS["float"]],
     },
     "C05": {
-        "lean": "SymfcModel.Props.C05", "gen": ["Solver", "SolverState"],
+        "lean": "SymfcModel.Props.C05", "gen": ["Solver", "SolverState", "ApiDataflow"],
         "corr": [{"fn": S.corr_reshape, "quick": {"n_cases": 36}, "thorough": {"n_cases": 300}},
                  {"fn": S.corr_normal_eq, "quick": {"n_cases": 36}, "thorough": {"n_cases": 240}}],
         "oracle": [{"name": "recovery", "fn": o_fit("recovery"), "quick": {"n": 12}, "thorough": {"n": 48}, "search": {"n": 36}},
@@ -394,7 +398,7 @@ PROPS = {
         "trusted": [KERNELS["posv"], KERNELS["float"]],
     },
     "C06": {
-        "lean": "SymfcModel.Props.C06", "gen": ["Solver"],
+        "lean": "SymfcModel.Props.C06", "gen": ["Solver", "ApiDataflow"],
         "corr": [{"fn": S.corr_normal_eq, "quick": {"n_cases": 36}, "thorough": {"n_cases": 240}}],
         "oracle": [{"name": "normal_equations", "fn": o_fit("normal_equations"), "quick": {"n": 12, "confine": True},
                     "thorough": {"n": 36, "confine": True}, "search": {"n": 30, "confine": True}}],
@@ -419,6 +423,8 @@ PROPS = {
         "corr": [{"fn": C.corr_cell_index, "quick": {"n_cases": 45}, "thorough": {"n_cases": 300}}],
         "oracle": [{"name": "basis_compact", "fn": o_basis, "quick": {"n": 15, "which": ("compact",)},
                     "thorough": {"n": 36, "which": ("compact",), "min_nlp": 2}, "search": {"n": 24, "which": ("compact",)}},
+                   {"name": "caller_supplied_operations", "fn": o_caller_ops, "quick": {"n": 4}, "thorough": {"n": 24},
+                    "search": {"n": 16}},
                    {"name": "fit_compact", "fn": o_fit("fit_relations"), "quick": {"n": 2}, "thorough": {"n": 12}}],
         "trusted": [KERNELS["float"]],
     },
@@ -457,6 +463,8 @@ PROPS = {
                  {"fn": S.corr_sum_rule, "quick": {"n_cases": 24, "sizes": ((6, 6), (6, 6), (3, 3))}, "thorough": {"n_cases": 120}},
                  {"fn": S.corr_normal_eq, "quick": {"n_cases": 9}, "thorough": {"n_cases": 90}}],
         "oracle": [{"name": "paths", "fn": o_paths, "quick": {"n": 6}, "thorough": {"n": 24}, "search": {"n": 18}},
+                   {"name": "caller_supplied_operations", "fn": o_caller_ops, "quick": {"n": 4}, "thorough": {"n": 24},
+                    "search": {"n": 16}},
                    {"name": "fit_paths", "fn": o_fit("fit_relations"), "quick": {"n": 4}, "thorough": {"n": 18}},
                    # every solver class used directly with a snapshot batch size (also ones that do not divide the number
                    # of snapshots) against the same class with the default: fresh objects, one solve each
@@ -476,7 +484,7 @@ PROPS = {
         "trusted": [KERNELS["eigh"], KERNELS["posv"], "solver results are deterministic functions of their arguments (modelled as tokens)"],
     },
     "C13": {
-        "lean": "SymfcModel.Props.C13", "gen": ["Solver"],
+        "lean": "SymfcModel.Props.C13", "gen": ["Solver", "ApiDataflow"],
         "corr": [{"fn": S.corr_normal_eq, "quick": {"n_cases": 24}, "thorough": {"n_cases": 180}}],
         "oracle": [{"name": "fit_relations", "fn": o_fit("fit_relations"), "quick": {"n": 6}, "thorough": {"n": 24}, "search": {"n": 18}}],
         "trusted": [KERNELS["posv"], KERNELS["float"]],
@@ -504,7 +512,9 @@ PROPS = {
         "lean": "SymfcModel.Props.C16", "gen": ["ApiOrders", "ApiDataset", "ApiSolve", "ApiCompute"],
         "corr": [{"fn": corr_api.corr_check_orders, "rng": False, "quick": {}, "thorough": {}},
                  {"fn": corr_api.corr_api, "quick": {"n_hist": 40}, "thorough": {"n_hist": 300, "hist_len": 9}}],
-        "oracle": [{"name": "api_invalid", "fn": o_api_invalid, "quick": {"n": 3}, "thorough": {"n": 16}, "search": {"n": 8}}],
+        "oracle": [{"name": "api_invalid", "fn": o_api_invalid, "quick": {"n": 3}, "thorough": {"n": 16}, "search": {"n": 8}},
+                   # rejected requests (missing basis sets, unsupported order lists) at any point of a call sequence
+                   {"name": "history", "fn": o_history, "quick": {"n": 4}, "thorough": {"n": 24}, "search": {"n": 16}}],
         "trusted": ["solver calls succeed or raise before returning (modelled)"],
     },
 }
